@@ -230,7 +230,9 @@ class Ctx:
         self.heap = {}
         self.next_oid = 1
         self.pc = []
-        self.solver = z3.Solver()
+        import os as _os
+        lg = _os.environ.get("PYVC_LOGIC")
+        self.solver = z3.SolverFor(lg) if lg else z3.Solver()
         self.solver.set("timeout", timeout_ms)
         self.timeout_ms = timeout_ms
         self.fresh_n = 0
@@ -254,6 +256,7 @@ class Ctx:
         self.notes = []
         self.cur_func = None
         sym.set_overflow_hook(self._overflow)
+        sym.reset_refinements()
 
     # ----------------------------------------------------------------- heap
     def alloc(self, obj):
@@ -318,6 +321,7 @@ class Ctx:
     def pc_add(self, e):
         self.pc.append(e)
         self.solver.add(e)
+        sym.refine_from(e)
 
     def _check(self, *extra):
         t0 = time.time()
